@@ -278,8 +278,12 @@ def check(prop, tier, level, rule_text, components_real, components_stub, assump
         path = write_replay(prop, tier, seed, sig, v)
         new_violations.append((sig, seed, v, path, total['sigcount'].get(sig, len(items))))
 
+    printed = {}
     for k, sig, seed, n in known_hits:
-        print(f'KNOWN-FINDING: property={prop} {k.get("what", sig)} [signature={sig} first_seed={seed} runs={n}]')
+        printed.setdefault(id(k), (k, []))[1].append((sig, seed, n))
+    for k, hits in printed.values():        # one line per listed finding, whatever number of signatures it covers
+        sigs = ', '.join(f'{sig} first_seed={seed} runs={n}' for sig, seed, n in hits)
+        print(f'KNOWN-FINDING: property={prop} {k.get("what", hits[0][0])} [signature={sigs}]')
     for sig, seed, v, path, n in new_violations:
         print(f'VIOLATION property={prop} replay={path}')
         print(f'  signature={sig} seed={seed} runs_with_it={n}')
